@@ -469,6 +469,13 @@ func (res *PropResult) report(p *Program, cfg *PropConfig, tier string, writeBas
 		inBase[n] = true
 		inBaseNorm[normOb(n)] = true
 	}
+	if tier == "thorough" {
+		// obligations that need 3..20 s on the unchanged tree are claimed only under the thorough cap
+		for _, n := range baseline[cfg.ID+"@thorough"] {
+			inBase[n] = true
+			inBaseNorm[normOb(n)] = true
+		}
+	}
 	all := append(append([]*obSummary(nil), res.Summ...), res.Lemmas...)
 	// a function the engine could not execute discharges nothing: every obligation of that
 	// function that was discharged on the unchanged tree is now undecided
@@ -574,15 +581,24 @@ func (res *PropResult) report(p *Program, cfg *PropConfig, tier string, writeBas
 	writeEvidence(p, cfg, tier, res, all, discharged, undecidedNew, missing, backends, vac, knownPrinted, violations)
 	if writeBaseline {
 		// only obligations that discharge well under the quick cap are ever claimed
-		var stable []string
+		var stable, slow []string
 		for _, s := range all {
 			if s.Status == "discharged" && s.MaxMs < 3000 {
 				stable = append(stable, s.Name)
+			} else if s.Status == "discharged" && s.MaxMs < 20000 {
+				slow = append(slow, s.Name)
+				fmt.Printf("  baseline: %s claimed in the thorough tier only (%d ms)\n", s.Name, s.MaxMs)
 			} else if inBase[s.Name] {
 				fmt.Printf("  baseline: dropping %s (%s, %d ms)\n", s.Name, s.Status, s.MaxMs)
 			}
 		}
 		p.writeNames()
+		sort.Strings(slow)
+		if len(slow) > 0 {
+			baseline[cfg.ID+"@thorough"] = slow
+		} else {
+			delete(baseline, cfg.ID+"@thorough")
+		}
 		baseline[cfg.ID] = stable
 		sort.Strings(baseline[cfg.ID])
 		data, _ := json.MarshalIndent(baseline, "", " ")
